@@ -30,31 +30,44 @@ def main(v: Verdict) -> None:
     scs = generate(v, "Inherit", "C17_MC.cfg" if TIER == "quick" else "C17_MC_thorough.cfg", min_records=300)
     if not scs:
         return
-    a_parts, b_parts, imports = [], [], []
     for hid, sc in enumerate(scs, 1):
         sc["id"] = hid
-        h = sc["h"]
-        if sc.get("decoy"):
-            a_parts.append(f"class Reg{hid}:\n    class {cname(hid, 1, False)}:\n        def decoy_m(self, from_decoy: int) -> int:\n            ...\n\n"
-                           f"        def m1(self, from_c9: int) -> int:\n            ...\n")
-        for k, c in enumerate(h, 1):
-            src = class_src(hid, k, c, h)
-            if sc["split"] and k == 1:
-                b_parts.append(src)
-                imports.append(f"from {PKG}.inhb import {cname(hid, 1, c['pub'])}")
-            else:
-                a_parts.append(src)
-    files = {"__init__.py": "", "inha.py": "\n".join(imports) + "\n\n" + "\n".join(a_parts), "inhb.py": "\n".join(b_parts) or "X = 1\n"}
-    pkg = write_pkg(files, PKG)
-    r = run_many([{"src": pkg, "opts": Opts(), "timeout": 900}])[0]
-    if r.exit != "ok":
+
+    def build(group, pkg):
+        a_parts, b_parts, imports, inits = [], [], [], []
+        for sc in group:
+            hid, h = sc["id"], sc["h"]
+            if sc.get("decoy"):
+                a_parts.append(f"class Reg{hid}:\n    class {cname(hid, 1, False)}:\n        def decoy_m(self, from_decoy: int) -> int:\n            ...\n\n"
+                               f"        def m1(self, from_c9: int) -> int:\n            ...\n")
+            if sc.get("aliased"):
+                inits.append(f"from .{'inhb' if sc['split'] else 'inha'} import {cname(hid, 1, False)} as H{hid}C1Shown")
+            for k, c in enumerate(h, 1):
+                src = class_src(hid, k, c, h)
+                if sc["split"] and k == 1:
+                    b_parts.append(src)
+                    imports.append(f"from {pkg}.inhb import {cname(hid, 1, c['pub'])}")
+                else:
+                    a_parts.append(src)
+        files = {"__init__.py": "\n".join(inits) + "\n", "inha.py": "\n".join(imports) + "\n\n" + "\n".join(a_parts), "inhb.py": "\n".join(b_parts) or "X = 1\n"}
+        return write_pkg(files, pkg)
+    # hierarchies whose private ancestor is re-exported under an alias go into packages of their own (300 each): the tool's re-export
+    # bookkeeping is quadratic in the number of re-exports
+    plain = [sc for sc in scs if not sc.get("aliased")]
+    al = [sc for sc in scs if sc.get("aliased")]
+    groups = [(plain, PKG)] + [(al[c:c + 300], f"{PKG}al{c // 300}") for c in range(0, len(al), 300)]
+    rs = run_many([{"src": build(g, pkg), "opts": Opts(), "timeout": 1500} for g, pkg in groups])
+    bad_runs = [r for r in rs if r.exit != "ok"]
+    if bad_runs:
+        r = bad_runs[0]
         v.machinery(f"run failed: {r.exit} {r.exc} {r.frame} {r.msg}  (crashes are C01's business; nothing observable here)")
         return
-    stubs = Stubs(r)
     tops = {}
-    for rel, f in stubs.files.items():
-        for d in f.members:
-            tops.setdefault(d.pyname, []).append((f, d))
+    for r in rs:
+        stubs = Stubs(r)
+        for rel, f in stubs.files.items():
+            for d in f.members:
+                tops.setdefault(d.pyname, []).append((f, d))
     obs = []
     for sc in scs:
         hid, h = sc["id"], sc["h"]
@@ -86,7 +99,7 @@ def main(v: Verdict) -> None:
                     if idx and nm not in imported and nm not in declared:
                         unimp.append(idx)
                 o = {"missing": False, "k": k, "meths": meths, "supers": supers, "unimported": unimp}
-            obs.append({"id": f"H{hid}C{k}", "sc": {"h": h, "split": sc["split"], "decoy": sc.get("decoy", False)}, "obs": o})
+            obs.append({"id": f"H{hid}C{k}", "sc": {"h": h, "split": sc["split"], "decoy": sc.get("decoy", False), "aliased": sc.get("aliased", False)}, "obs": o})
     bad = judge(v, "C17_Trace", obs)
     by_id = {o["id"]: o for o in obs}
     for b in bad:
